@@ -56,9 +56,16 @@ example : (run Skeleton.current (init [some { req := some 1, res := none }, none
     regenerated skeleton) — otherwise a reader parked in its adapter would never be woken. -/
 theorem C15_decoder_abort_signals_readers : Skeleton.current.stAbortClosesDone = true := by decide
 
+/-- `decodeDone` is closed exactly once on every way out of the decoder goroutine, and by nobody else
+    (checked against the regenerated skeleton): the model's `dec = .done` is entered once.  A second
+    close would panic in a goroutine that has no `recover` — e.g. when a frame arrives after the link
+    context was cancelled and the exit taken is one that both closes explicitly and has a deferred close. -/
+theorem C05_decoder_done_closed_once : Skeleton.current.stDoneClosedOncePerExit = true := by decide
+
 end Panrpc.St
 
 #print axioms Panrpc.St.cur_handoff_guarded
 #print axioms Panrpc.St.decoder_can_finish
 #print axioms Panrpc.St.decoder_abort_enabled
 #print axioms Panrpc.St.C15_decoder_abort_signals_readers
+#print axioms Panrpc.St.C05_decoder_done_closed_once
